@@ -17,8 +17,11 @@ CONFIGS = {
     },
     "thorough": {
         "geometry": (5, 3, OPS_A, [0, 1, 2, 4], [0, 1, 3], [0, 1, 3], [-2, -1, 2], [1, 2, 3], ["UInf"], [0]),
-        "flags": (6, 3, OPS_B + ["nextLogContainer"], [0, 1, 3], [0, 2], [0, 1, 3, 5], [-2, -1, 2], [2, 3],
-                  [1, 2, "UInf"], [0, 2, 4, 5, 6]),
+        # (sized for the unrestricted write(container): ~3 M + ~1 M transitions, each one replayed)
+        "flags": (5, 3, OPS_B + ["nextLogContainer"], [0, 1, 3], [2], [0, 1, 3], [-2, -1, 2], [2, 3],
+                  [2, "UInf"], [0, 2, 4, 5]),
+        "flags0": (4, 3, OPS_B + ["nextLogContainer"], [0, 1, 3], [0, 2], [0, 1, 3], [-1, 2], [2],
+                   [1, 2, "UInf"], [0, 2, 4]),
     },
 }
 
